@@ -501,18 +501,20 @@ class Kernel(Module):
 
         x1_, x2_ = x1, x2
 
+        # Give x1_ and x2_ a last dimension, if necessary
+        # (before the active dimensions are selected: the last dimension of a 1-D input is the data dimension)
+        if x1_.ndimension() == 1:
+            x1_ = x1_.unsqueeze(1)
+        if x2_ is not None and x2_.ndimension() == 1:
+            x2_ = x2_.unsqueeze(1)
+
         # Select the active dimensions
         if self.active_dims is not None:
             x1_ = x1_.index_select(-1, self.active_dims)
             if x2_ is not None:
                 x2_ = x2_.index_select(-1, self.active_dims)
 
-        # Give x1_ and x2_ a last dimension, if necessary
-        if x1_.ndimension() == 1:
-            x1_ = x1_.unsqueeze(1)
         if x2_ is not None:
-            if x2_.ndimension() == 1:
-                x2_ = x2_.unsqueeze(1)
             if not x1_.size(-1) == x2_.size(-1):
                 raise RuntimeError("x1_ and x2_ must have the same number of dimensions!")
 
